@@ -40,6 +40,11 @@
     * a struct VIEW (manifest) translates only the named fields of a struct; a selected method that touches any
       other field is rejected by the translator, so the omitted fields are provably irrelevant to it;
     * `slice.iter()` / `.iter().rev()` are lists consumed from the front (`next()` = head, keeps the tail);
+    * `&mut impl io::Read` / `&mut impl io::Write` parameters are the cursor models `ReadCursor` / `WriteCursor` of
+      section "io" below (`io::Cursor` over a byte slice — the only readers/writers the crate passes);
+      `reader.read_exact(&mut dst)` reads `dst.len()` bytes; `io::Error::new(..)` is the one-point `IoError`;
+      `const N: usize` generic parameters are explicit arguments; `i32` values are `Int`s that are only produced by
+      `i32::from_le_bytes` and passed on;
     * `std::time::Duration` is a `Nat` of nanoseconds (`Duration::MAX` as in std; comparison / copy only);
       `std::net::SocketAddr` is the inductive `SocketAddr` whose `==` is structural; `Box<T>` is `T`;
       `==` / `!=` on byte arrays, table-mapped types and selected structs/enums is equality of the representation
@@ -239,6 +244,9 @@ def to_be_bytes (w x : Nat) : List Nat := (leBytes x (w / 8)).reverse
 def from_le_bytes : List Nat → Nat
   | [] => 0
   | b :: r => b + 256 * from_le_bytes r
+/-- `i32::from_le_bytes(b)` (two's complement of the little-endian u32 value) -/
+def i32_from_le_bytes (b : List Nat) : Int :=
+  if from_le_bytes b < 2 ^ 31 then (from_le_bytes b : Int) else (from_le_bytes b : Int) - 2 ^ 32
 /-- `uW::from_be_bytes(b)` -/
 def from_be_bytes (b : List Nat) : Nat := from_le_bytes b.reverse
 
@@ -481,5 +489,47 @@ def get_bytes_with_varint_length (b : Octets) : Res BufferTooShortError (Octets 
   | .err e => .err e
   | .panic s => .panic s
 end Octets
+
+
+/-! ### `io::Read` / `io::Write` on `io::Cursor` over byte slices (by-value models)
+
+The selected code takes `&mut impl io::Read` / `&mut impl io::Write`; every caller in the crate passes an
+`io::Cursor<&[u8]>` / `io::Cursor<&mut [u8]>` (or `&mut [u8; N]`).  `io::Error` values are not distinguished. -/
+
+/-- `io::Cursor<&[u8]>` used through `io::Read` -/
+structure ReadCursor where
+  buf : List Nat
+  pos : Nat
+  deriving Repr, DecidableEq
+
+/-- `Cursor::new(slice)` -/
+def ReadCursor.new (buf : List Nat) : ReadCursor := ⟨buf, 0⟩
+
+/-- `read_exact(&mut dst)` with `dst.len() = n`: `UnexpectedEof` when fewer than `n` bytes remain, else the next
+    `n` bytes and the position advances -/
+def ReadCursor.read_exact (c : ReadCursor) (n : Nat) : Res IoError (ReadCursor × List Nat) :=
+  if (c.buf.drop c.pos).length < n then .err .opaque
+  else .ok ({ c with pos := c.pos + n }, (c.buf.drop c.pos).take n)
+
+/-- `io::Cursor<&mut [u8]>` used through `io::Write` -/
+structure WriteCursor where
+  buf : List Nat
+  pos : Nat
+  deriving Repr, DecidableEq
+
+/-- `Cursor::new(slice)` -/
+def WriteCursor.new (buf : List Nat) : WriteCursor := ⟨buf, 0⟩
+
+/-- `Write::write`: copies what fits (a short write is not an error) and returns the count -/
+def WriteCursor.write (c : WriteCursor) (b : List Nat) : Res IoError (WriteCursor × Nat) :=
+  let n := min b.length (c.buf.length - c.pos)
+  .ok ({ buf := c.buf.take c.pos ++ b.take n ++ c.buf.drop (c.pos + n), pos := c.pos + n }, n)
+
+/-- `Write::write_all`: `WriteZero` when the bytes do not fit (the partially written cursor is dropped with the
+    error, as for every `&mut` cursor parameter) -/
+def WriteCursor.write_all (c : WriteCursor) (b : List Nat) : Res IoError (WriteCursor × Unit) :=
+  if b.length ≤ c.buf.length - c.pos then
+    .ok ({ buf := c.buf.take c.pos ++ b ++ c.buf.drop (c.pos + b.length), pos := c.pos + b.length }, ())
+  else .err .opaque
 
 end RenetVerif.RustSem
